@@ -15,6 +15,10 @@ Optional extensions (absent = the behaviour above):
       True).  The implementation logs and continues, so the model event is the same as without the flag.
   ("setmtu", mtu): Packet.setMTU(mtu) while the connection exists; model event [9, env'] — only understood
       by unit conn_run_mtu (coq/Extract/U_ConnMtu.v), not by conn_run.
+  ("hello", now, 2): the connect callback records its invocation and then RAISES (the exception leaves
+      UdpClient.update(); Conn.v does not describe that: implementation-only scenarios).
+  Impl.cb_hook = fn(cbid, ok): called from INSIDE every user send callback after it was recorded (lets a scenario
+      issue API calls from inside a callback; implementation-only).
 """
 import struct, hashlib, binascii, types
 from harness import lib
@@ -248,6 +252,7 @@ class Impl:
         self.keys = keys
         self.cblog = []
         self.conncb = []
+        self.cb_hook = None
         self.pin = None        # the key the client was CONFIGURED with (set by the "hello" event from UdpClient's own
                                # attribute); connections built directly in the established state have none
         self.addr = ("10.0.0.%d" % (1 if role == "client" else 2), 4000)
@@ -283,6 +288,8 @@ class Impl:
 
         def f(ok, _id=cbid):
             self.cblog.append([1, _id, 1 if ok else 0])
+            if self.cb_hook is not None:
+                self.cb_hook(_id, ok)
             if raises == 1 or (raises == 2 and not ok) or (raises == 3 and ok):
                 raise RuntimeError("user send callback %d raises" % _id)
         f._verif_id = cbid
@@ -447,7 +454,11 @@ class Impl:
             _, now, with_cb = ev
             CLOCK.t = now
             cb = None
-            if with_cb:
+            if with_cb == 2:
+                def cb(ok):
+                    self.conncb.append(1 if ok else 0)
+                    raise RuntimeError("connect callback raises")
+            elif with_cb:
                 cb = lambda ok: self.conncb.append(1 if ok else 0)   # noqa
             self.client.connect(self.addr, cb)
             self.pin = self.client.server_public_key
